@@ -31,7 +31,8 @@ def oracle(p):
             decoded = k not in ('Headers', 'PushPromise') or rf[-1][0] == 'Decoded'
             # (a frame above MAX_FRAME_SIZE, or DATA beyond the connection window, is the peer's violation whatever the stream)
             # (a PUSH_PROMISE received by a server, or by a client that disabled push, is a connection error whatever the stream: C22)
-            push_refused = k == 'PushPromise' and (not p['cfg']['client'] or any(kk == 2 and q[0] == [0] for kk, q in prev[11]))
+            push_refused = k == 'PushPromise' and (not p['cfg']['client'] or any(kk == 2 and q[0] == [0] for kk, q in prev[11])
+                                                   or rf[2] % 2 == 1 or rf[2] <= 0)      # ... or one that promises an odd / zero id (malformed)
             if sid in ours and decoded and not push_refused and not (k == 'Data' and (rf[3] > prev[6][1] or rf[3] > prev[7][1])):
                 if parts[0][0] != 0:
                     V('a frame for a stream the application had reset caused an exception (connection error)', {'frame': k, 'stream': sid, 'outcome': parts[0]})
